@@ -100,10 +100,10 @@ class LinearOperator(EditableModule):
             if mat.shape[-2] != mat.shape[-1]:
                 is_hermitian = False
             else:
-                is_hermitian = torch.allclose(mat, mat.transpose(-2, -1).conj())
+                is_hermitian = _is_hermitian_matrix(mat)
         elif is_hermitian:
             # check the hermitian
-            if not torch.allclose(mat, mat.transpose(-2, -1).conj()):
+            if not _is_hermitian_matrix(mat):
                 raise RuntimeError("The linear operator is indicated to be hermitian, but the matrix is not")
 
         return MatrixLinearOperator(mat, is_hermitian)
@@ -422,7 +422,7 @@ class LinearOperator(EditableModule):
     def __add__(self, b: LinearOperator):
         assert isinstance(b, LinearOperator), \
             "Only addition with another LinearOperator is supported"
-        if self.shape[-2:] != b.shape[-2:]:
+        if tuple(self.shape[-2:]) != tuple(b.shape[-2:]):
             raise RuntimeError("Mismatch shape of add operation: %s and %s" % (self.shape, b.shape))
         if isinstance(self, MatrixLinearOperator) and isinstance(b, MatrixLinearOperator):
             return LinearOperator.m(self.fullmatrix() + b.fullmatrix())
@@ -431,7 +431,7 @@ class LinearOperator(EditableModule):
     def __sub__(self, b: LinearOperator):
         assert isinstance(b, LinearOperator), \
             "Only subtraction with another LinearOperator is supported"
-        if self.shape[-2:] != b.shape[-2:]:
+        if tuple(self.shape[-2:]) != tuple(b.shape[-2:]):
             raise RuntimeError("Mismatch shape of add operation: %s and %s" % (self.shape, b.shape))
         if isinstance(self, MatrixLinearOperator) and isinstance(b, MatrixLinearOperator):
             return LinearOperator.m(self.fullmatrix() - b.fullmatrix())
@@ -804,6 +804,12 @@ def checklinop(linop: LinearOperator) -> None:
     for (rmv_xshape, rmv_yshape) in zip(rmv_xshapes, rmv_yshapes):
         runtest("rmv", rmv_xshape, rmv_yshape)
         runtest("rmm", (*rmv_xshape, r), (*rmv_yshape, r))
+
+def _is_hermitian_matrix(mat: torch.Tensor) -> bool:
+    # the absolute tolerance follows the magnitude of the matrix, so that a matrix
+    # with small entries is not taken for a Hermitian one
+    scale = float(mat.abs().max()) if mat.numel() > 0 else 0.0
+    return torch.allclose(mat, mat.transpose(-2, -1).conj(), rtol=1e-5, atol=1e-8 * scale)
 
 ########### repr helper functions ###########
 def _indent(s, nspace):
